@@ -296,7 +296,7 @@ def spec_states(h, lines, tags, ranges, cut_i, cut_b):
     return [a]
 
 
-def check_cuts(rep, tier, rng, prop, h, meta, lines, tags, impl, model, root, loss=False, budget=60):
+def check_cuts(rep, tier, rng, prop, h, meta, lines, tags, impl, model, root, loss=False, budget=60, compare_model=True):
     """enumerate cuts of one traced workload; returns list of problems"""
     ranges, ncalls = op_call_ranges(lines, impl)
     calls = []
@@ -389,8 +389,52 @@ def check_cuts(rep, tier, rng, prop, h, meta, lines, tags, impl, model, root, lo
                 problems.append(("oracle", "after the crash the store does not hold the acknowledged operations (with the one in flight applied or not)", script, base + 2 * j,
                                  " | ".join(",".join(f"{hx(k)}={show_val(s.get(k))}" for k in meta["keys"]) for s in allowed), a, None))
                 continue
-        if a != m:
+        if a != m and compare_model:
             problems.append(("correspondence", "the real code and the model recover different contents from the same crash image", script, base + 2 * j, m, a, None))
+    if loss or any(p[6] is None for p in problems):
+        return problems
+    # lives after the crash: recover the image in place, keep writing, restart again (a torn tail or a
+    # half-finished merge must stay isolated from what later lives write)
+    pri = [c for c in cuts if c[1] > 0] + [c for c in cuts if c[1] == 0 and c[0] < ncalls and calls[c[0]][0] in "uc"]
+    rng.shuffle(pri)
+    for (i, b) in pri[:(3 if tier == "quick" else 10)]:
+        ks = meta["keys"]
+        cont = []
+        for n, k in enumerate(ks[:3]):
+            cont.append(f"put {hx(k)} c{n}" if n != 1 else f"del {hx(k)}")
+        gets = ["get " + hx(k) for k in ks]
+        script2 = lines + [f"restore {i} {b}", "open"] + gets + cont + gets + ["reopen"] + gets + ["merge", "reopen"] + gets
+        a2, m2b, d2b = run_both_traced(script2, root)
+        rep.cov["evaluations"] += len(script2) - len(lines)
+        rep.count("lives_after_crash")
+        if d2b is not None:
+            problems.append(("oracle", f"harness died ({d2b.why}) in a life after the crash", script2, len(a2), "ok", "process death", None))
+            continue
+        o = len(lines) + 2
+        basevals = {hx(k): a2[o + n] for n, k in enumerate(ks)}
+        exp = dict(basevals)
+        for n, k in enumerate(ks[:3]):
+            exp[hx(k)] = f"c{n}" if n != 1 else "nil"
+        bad = None
+        for li in range(len(lines), len(script2)):
+            if strip_trace(a2[li]).startswith(("panic", "err", "restore-error", "open-panic")):
+                bad = (li, "ok", a2[li])
+                break
+        if not bad:
+            for blk, start in (("after the writes", o + len(ks) + len(cont)), ("after the next restart", o + 2 * len(ks) + len(cont) + 1), ("after a merge and another restart", o + 3 * len(ks) + len(cont) + 3)):
+                for n, k in enumerate(ks):
+                    if a2[start + n] != exp[hx(k)]:
+                        # D3 may surface here as well (merge in the continuation): known if the key is expected absent
+                        sig = D3_SIG if (exp[hx(k)] == "nil" and "merge" in blk) else None
+                        bad = (start + n, f"{hx(k)}={exp[hx(k)]} {blk}", f"{hx(k)}={a2[start + n]}", sig)
+                        break
+                if bad:
+                    break
+        if bad:
+            problems.append(("oracle", "a later life does not keep what was written after recovering from the crash (the crash left-over was not isolated)", script2, bad[0], bad[1], bad[2], bad[3] if len(bad) > 3 else None))
+        elif compare_model and [x for x in a2] != [x for x in m2b]:
+            dd = next(t for t in range(len(a2)) if a2[t] != m2b[t])
+            problems.append(("correspondence", "real code and model diverge in a life after the crash", script2, dd, m2b[dd], a2[dd], None))
     return problems
 
 
@@ -429,6 +473,12 @@ def run_cut_property(rep, tier, seed, prop, loss):
                 rep.violation("correspondence" if died is None else "oracle",
                               dict(what="the file-system call trace of the workload differs from the model's (before any crash)" if died is None else f"harness died ({died.why})",
                                    script=lines, failing_line=d, expected=model[d][:800] if d < len(model) else None, observed=impl[d][:800] if d < len(impl) else None))
+            if died is not None or nv > 3:
+                continue
+            # the trace correspondence is broken: search for a failing input with the direct oracle alone
+            probs = [p for p in check_cuts(rep, tier, rng, prop, h, meta, lines, tags, impl, model, root, loss=loss, budget=40, compare_model=False) if p[0] == "oracle" and p[6] is None]
+            for p in probs[:1]:
+                rep.violation(p[0], dict(what=p[1], script=p[2][:len(lines)] + p[2][len(lines):][-16:], failing_request=p[2][p[3]] if p[3] < len(p[2]) else None, expected=p[4][:1200], observed=p[5][:1200]))
             continue
         rep.cov["traces_validated_against_impl"] += 1
         rep.nontrivial([prop, h.cfg, lines[4:]])
